@@ -52,7 +52,9 @@ fn main() {
             Ok(args) => {
                 // flush before a call that may hang, so that the watchdog knows where we are
                 out.flush().unwrap();
+                WRAP_MISMATCH.with(|f| f.set(false));
                 match std::panic::catch_unwind(std::panic::AssertUnwindSafe(|| dispatch(op, ty, &args))) {
+                    Ok(s) if WRAP_MISMATCH.with(|f| f.get()) => format!("!wrapper(the Result receiver answers differently; plain: {s})"),
                     Ok(s) => s,
                     Err(_) => "panic".to_string(),
                 }
